@@ -16,6 +16,8 @@ Families (--tier quick: 3000 histories, thorough: 15000 per seed):
   handlers  lifecycles with key/mouse handlers acting on their own window / ancestors (the property's case)
   foreign   handlers that close, unref, hide or restack *other* windows (siblings in the middle of the walk, drag sources)
   objects   pens (shared with windows), strings, render buffers, terminal references
+  pens      pens with internal reference traffic: ON_CHANGE handlers that unref/ref the pen, set_colour_attr_desc
+            with accepted and rejected descriptions, copy / copy_attr (freeze/thaw)
   copyout   get_cell_text / get_span with buffers around the exact fit; mock terminal display text
 exhaustive: every order of <= 5 lifecycle operations on a root with two nested children and one pen
             (DESIGN §7 C08), each followed by flush and end.
@@ -200,6 +202,43 @@ def gen_objects_history(rng):
         else: emit("key")
     emit("end")
 
+DESCS = ["red", "blue", "hi-green", "hi-white", "grey", "purple", "bl", "b", "magenta", "orange #ff8000", "pink#ffc0cb",
+         "3", "7", "8", "255", "hi-3", "hi-7", "hi-8", "hi-9", "hi-12", "hi-200", "12#102030", "hi-1 #abcdef", "hi-9#000000",
+         "#ff0000", "", "hi-", "junk", "blackx", "redd", "hi-junk", "x#112233", "white #12", "cyan#abcde", "yellow #1234"]
+
+def hexs(t): return "".join("%02x" % b for b in t.encode()) or "-"
+
+def gen_pens_history(rng):
+    """pens with internal reference traffic: change handlers that drop or take references to the pen, freeze/thaw in
+    set_colour_attr_desc (accepted and rejected descriptions), copy and copy_attr, pens shared with windows"""
+    emit("new 6 12")
+    nw = 1
+    for _ in range(rng.randint(0, 2)):
+        emit("win %d %d %d %d %d 0" % ((rng.randrange(nw),) + rect(rng))); nw += 1
+    npens = rng.randint(1, 3)
+    for _ in range(npens): emit("pen")
+    for _ in range(rng.randint(0, 3)):
+        k = rng.randrange(npens)
+        acts = []
+        for _ in range(rng.randint(0, 3)):
+            # a handler drops or takes references to its own pen (dropping another pen that a running copy still
+            # reads is the application's bug)
+            acts.append(rng.choice(["q%d", "q%d", "Q%d"]) % k)
+        emit(("pbind %d %s" % (k, " ".join(acts))).strip())
+    for _ in range(rng.randint(5, 16)):
+        r = rng.random(); k = rng.randrange(npens)
+        if r < 0.30: emit("pdesc %d %s" % (k, hexs(rng.choice(DESCS))))
+        elif r < 0.42: emit("pset %d %d" % (k, rng.choice([0, 1, 7, 8, 200, 255])))
+        elif r < 0.57: emit("pcopy %d %d %d" % (k, rng.randrange(npens), rng.randint(0, 1)))
+        elif r < 0.67: emit("pcopyattr %d %d" % (k, rng.randrange(npens)))
+        elif r < 0.75: emit("%s %d" % (rng.choice(["pref", "punref", "punref"]), k))
+        elif r < 0.83: emit("setpen %d %s" % (rng.randrange(nw), rng.choice(["-", str(k)])))
+        elif r < 0.88: emit("punbind %d %d" % (k, rng.randint(1, 2)))
+        elif r < 0.92 and npens < 5: emit("pen"); npens += 1
+        elif r < 0.96: emit("unref %d" % rng.randrange(nw))
+        else: emit("pbind %d q%d" % (k, k))
+    emit("end")
+
 def gen_copyout_history(rng):
     if rng.random() < 0.2:
         Lm, Cm = rng.randint(1, 3), rng.randint(2, 8)
@@ -246,7 +285,7 @@ if a.tier == "exhaustive":
     info = {"exhaustive_bound": "all sequences of <=3 (and a seed-selected quarter of the length-4) operations over a 13-letter lifecycle alphabet on root>1>2, 3 sibling of 1, one pen, one self-unref key handler; each followed by flush and end", "histories": nh}
 else:
     scale = 1 if a.tier == "quick" else 5
-    fams = {"tree": 800, "handlers": 800, "foreign": 400, "objects": 500, "copyout": 500}
+    fams = {"tree": 700, "handlers": 700, "foreign": 400, "objects": 400, "pens": 400, "copyout": 400}
     if a.families:
         fams = {k: v for k, v in fams.items() if k in a.families.split(",")}
     for fam, n in fams.items():
@@ -256,6 +295,7 @@ else:
             elif fam == "handlers": gen_tree_history(rng, True, False)
             elif fam == "foreign": gen_tree_history(rng, True, True)
             elif fam == "objects": gen_objects_history(rng)
+            elif fam == "pens": gen_pens_history(rng)
             else: gen_copyout_history(rng)
             fam_count[fam] = fam_count.get(fam, 0) + 1
     info = {"histories": sum(fam_count.values()), "families": fam_count}
